@@ -1,6 +1,7 @@
 import FqModel.Proto
 import FqModel.Recover
 import FqModel.Recover2
+import FqModel.ReadChunks
 /-! driver for C06
 
   `batch <path> <format> <f|n> <seed> <mod> <lo> <hi>` TAB `cases=<n> <obs>@<kind>*<count> …`
@@ -10,6 +11,17 @@ import FqModel.Recover2
   `core <prim> <arg> <buf bytes> <pos bits> <f|n>` TAB `ok|err:io|err:decoder|panic:…|resource:…`
   `dprog <format> <f|n> <hex>` TAB `<class> <leaves>`    DProg correspondence (harness/cmd/c06/dprog.go): the model is
                                                         `runDProg` of the transliterated decoder; class AND leaf list must agree
+  `chunk <carrier> <format> <f|n> <seed> <mod> <level> <k>` TAB the same histogram (chunk-boundary family, chunks.go)
+  `rd <nal|unsync|bitflip> <stale hex> <input hex> <plen/c,…>` TAB `<n>:<hex>,…[,panic:<key>]`
+                                                        the adapter's Read driven call by call (destination size plen,
+                                                        inner reader delivering min c plen remaining): compared call by
+                                                        call with `nalRead` / `unsyncRead` / `bitflipRead` of FqModel/ReadChunks.lean
+  `rdall <nal|unsync> <fill hex> <len> <off.hex,…|->` TAB `<plen/n,…> <outlen>:<fnv1a64>`
+                                                        the adapter between bitio.IOReader and bytes.Buffer.ReadFrom (what
+                                                        d.NewBitBufFromReader builds) on a generated payload; the observed
+                                                        call schedule must cover the payload and satisfy the contract, the
+                                                        output must be the model's on that schedule AND (nal) `unescape`
+                                                        of the whole payload
   `skip …` TAB `resource:…`                             a job given up for time/memory (counted, not a violation)
 
   <obs> of a decode = `tree|partial|error / n / k / i / v`: n formats in the group, k collected format
@@ -180,6 +192,133 @@ def dprogVerdict (fmt sf hex obs : String) : String :=
     else if m == obs then "OK" else s!"DIVERGE model={short}"
   | _, _ => "BADOP dprog-parse"
 
+/-! ### read-chunk correspondence (FqModel/ReadChunks.lean) -/
+
+open FqModel.ReadChunks in
+def hexOfBytes (bs : List Nat) : String :=
+  if bs.isEmpty then "-" else
+  let d (n : Nat) : Char := if n < 10 then Char.ofNat (48 + n) else Char.ofNat (87 + n)
+  String.ofList (bs.flatMap fun b => [d (b / 16 % 16), d (b % 16)])
+
+def fnv64 (bs : List Nat) : UInt64 :=
+  bs.foldl (fun h b => (h ^^^ b.toUInt64) * 0x100000001b3) 0xcbf29ce484222325
+
+/-- `a/b,a/b,…` -/
+def parsePairs (s : String) : Option (List (Nat × Nat)) :=
+  if s == "-" then some [] else
+  (s.splitOn ",").mapM fun t =>
+    match t.splitOn "/" with
+    | [a, b] => match a.toNat?, b.toNat? with
+      | some x, some y => some (x, y)
+      | _, _ => none
+    | _ => none
+
+open FqModel.ReadChunks in
+/-- the model's observation of a sequence of Reads on ONE reader value: `n:hex` per call, `panic` where it faults -/
+def rdModel (kind : String) (calls : List ReadCall) : Option String :=
+  let rec goNal : NalSt → List ReadCall → List String → List String
+    | _, [], acc => acc.reverse
+    | st, c :: rest, acc =>
+      match nalRead .none c st with
+      | .ok (n, st', out) => goNal st' rest (s!"{n}:{hexOfBytes out}" :: acc)
+      | .panic _ => ("panic" :: acc).reverse
+  let rec goUnsync : Bool → List ReadCall → List String → List String
+    | _, [], acc => acc.reverse
+    | ff, c :: rest, acc =>
+      match unsyncRead c ff with
+      | .ok (n, ff', out) => goUnsync (if unsyncCarriesState then ff' else ff) rest (s!"{n}:{hexOfBytes out}" :: acc)
+      | .panic _ => ("panic" :: acc).reverse
+  let goFlip (calls : List ReadCall) : List String :=
+    calls.map fun c => match bitflipRead c with
+      | .ok (n, out) => s!"{n}:{hexOfBytes out}"
+      | .panic _ => "panic"
+  match kind with
+  | "nal" => some (",".intercalate (goNal ⟨false, false⟩ calls []))
+  | "unsync" => some (",".intercalate (goUnsync false calls []))
+  | "bitflip" => some (",".intercalate (goFlip calls))
+  | _ => none
+
+/-- strip the key of a trailing `panic:<key>` element; returns (observation with bare `panic`, key) -/
+def splitPanic (obs : String) : String × Option String :=
+  match (obs.splitOn ",").reverse with
+  | last :: before =>
+    if last.startsWith "panic:" then (",".intercalate (before.reverse ++ ["panic"]), some last) else (obs, none)
+  | [] => (obs, none)
+
+open FqModel.ReadChunks in
+def rdVerdict (kind sstale shex ssched obs : String) : String :=
+  match parseHexBytes sstale, parseHexBytes shex, parsePairs ssched with
+  | some st, some inp, some sched =>
+    if st.size != 1 then "BADOP stale" else
+    if obs.startsWith "badcase" then s!"BADOP {obs}" else
+    match rdModel kind (schedule st[0]! inp.toList sched) with
+    | none => "BADOP reader-kind"
+    | some m =>
+      let (bare, key) := splitPanic obs
+      let div := if bare == m then "" else s!" ;DIVERGE model={m}"
+      match key with
+      | some k => knownVerdict k ++ div
+      | none => if bare == m then "OK" else s!"DIVERGE model={m}"
+  | _, _, _ => "BADOP rd-parse"
+
+/-- the generated payload of an `rdall` case / a `cb:` mutation: `len` bytes `fill`, patterns written over it -/
+def genPayload (fill len : Nat) (places : List (Nat × List Nat)) : Option (List Nat) :=
+  let base := Array.replicate len fill
+  let r := places.foldl (fun (acc : Option (Array Nat)) (pl : Nat × List Nat) =>
+    match acc with
+    | none => none
+    | some a =>
+      if pl.1 + pl.2.length > len then none
+      else some (pl.2.zipIdx.foldl (fun (a : Array Nat) (bi : Nat × Nat) => a.set! (pl.1 + bi.2) bi.1) a)) (some base)
+  r.map (·.toList)
+
+def parsePlaces (s : String) : Option (List (Nat × List Nat)) :=
+  if s == "-" then some [] else
+  (s.splitOn ",").mapM fun t =>
+    match t.splitOn "." with
+    | [a, h] => match a.toNat?, parseHexBytes h with
+      | some x, some bs => some (x, bs.toList)
+      | _, _ => none
+    | _ => none
+
+open FqModel.ReadChunks in
+def rdallVerdict (kind sfill slen splaces obs : String) : String :=
+  match parseHexBytes sfill, slen.toNat?, parsePlaces splaces with
+  | some fl, some len, some places =>
+    if fl.size != 1 then "BADOP fill" else
+    match genPayload fl[0]! len places with
+    | none => "BADOP placement-outside-payload"
+    | some pl =>
+      if obs.startsWith "badcase" then s!"BADOP {obs}" else
+      if isPanic obs then knownVerdict ((obs.splitOn " ").headD "") ++ " ;DIVERGE model=no-fault" else
+      match obs.splitOn " " with
+      | [ssched, sres] =>
+        match parsePairs ssched with
+        | none => "BADOP schedule"
+        | some sched =>
+          let calls := schedule 0 pl sched
+          -- the observed schedule must be a chunking of exactly this payload within the io.Reader contract
+          if sched.any (fun pc => pc.2 > pc.1) then "PROPFAIL inner reader delivered more than len(p)"
+          else if (sched.map (·.2)).sum != len then s!"DIVERGE model=schedule-covers-{(sched.map (·.2)).sum}-of-{len}"
+          else
+            let render (out : List Nat) : String := s!"{out.length}:{(fnv64 out).toNat}"
+            match kind with
+            | "nal" =>
+              match nalReads .none ⟨false, false⟩ calls with
+              | .ok (_, out) =>
+                let whole := unescape pl
+                if render out != sres then s!"DIVERGE model={render out}"
+                else if whole != out then s!"DIVERGE model=chunked-model-differs-from-rewrite"
+                else "OK"
+              | .panic _ => "DIVERGE model=panic"
+            | "unsync" =>
+              match unsyncReads unsyncCarriesState false calls with
+              | .ok out => if render out != sres then s!"DIVERGE model={render out}" else "OK"
+              | .panic _ => "DIVERGE model=panic"
+            | _ => "BADOP reader-kind"
+      | _ => "BADOP rdall-observation"
+  | _, _, _ => "BADOP rdall-parse"
+
 def stepC06 (op obs : String) : String :=
   match words op with
   | "batch" :: _ => batchVerdict obs
@@ -188,6 +327,9 @@ def stepC06 (op obs : String) : String :=
   | "types" :: _ => batchVerdict obs
   | "runs" :: _ => batchVerdict obs
   | "near" :: _ => batchVerdict obs
+  | "chunk" :: _ => batchVerdict obs
+  | ["rd", kind, st, hex, sched] => rdVerdict kind st hex sched obs
+  | ["rdall", kind, fill, len, places] => rdallVerdict kind fill len places obs
   | ["d", _, _, _, _] => decodeVerdict obs
   | ["i", _, _, _, _] =>
     if isPanic obs then knownVerdict obs
